@@ -51,22 +51,25 @@ def asked_times(model, engine, beats):
     return [(t, k, origin.get(t)) for t, k in sorted(ts.items())]
 
 
-def beat_answers(engine, times, own_boundary_times=False):
+def beat_answers(engine, times, own_boundary_times=False, reverse=False):
     """
     beat_at under every tag at every asked time.  With own_boundary_times, a boundary
     time is re-derived from this engine's own time_at(beat, tag) (it may differ by an
     ulp from the other engine's), the answers are still keyed by the original time.
     """
     out = {}
-    for t0, _, org in times:
+    for t0, _, org in (reversed(times) if reverse else times):
         t = t0
         if own_boundary_times and org is not None:
             t = float(engine.time_at(TC.to_beat(org[0]), org[1]))
             if abs(t - t0) > EPS:
                 continue  # the time itself differs: C11's business, not comparable here
-        for tag in TC.TAGS:
+        if reverse:
+            out[(t0, "default")] = engine.beat_at(t)
+        for tag in (reversed(TC.TAGS) if reverse else TC.TAGS):
             out[(t0, int(tag))] = engine.beat_at(t, tag)
-        out[(t0, "default")] = engine.beat_at(t)
+        if not reverse:
+            out[(t0, "default")] = engine.beat_at(t)
     return out
 
 
@@ -85,6 +88,12 @@ def check_timeline(tl, beats, extra_sets=()):
         times = asked_times(model, engine, beats)
         ans = beat_answers(engine, times)
         NQ[0] += len(ans)
+        back = beat_answers(engine, times, reverse=True)
+        NQ[0] += len(back)
+        diff = [k for k in ans if back[k] != ans[k]]
+        if diff:
+            k = diff[0]
+            fail("an answer depends on the order in which the engine was queried", str(ans[k]), str(back[k]), time=k[0], tag=str(k[1]))
     except core.WatchdogTimeout:
         raise
     except Exception as e:
